@@ -430,8 +430,11 @@ def rule_8(ctx):
         # chains: the leftmost error wins wherever it stands in the chain and whatever comes after it
         cells.update({f'N{i}': f'=1+A{i}+{other}', f'O{i}': f'=2*{code}*5*{other}', f'P{i}': f'=1-A{i}-{other}', f'Q{i}': f'=8/{code}/{other}',
                       f'R{i}': f'=1+{code}*2+{other}', f'S{i}': f'=3+5+A{i}+2+{other}+{codes[(i + 1) % 7]}', f'T{i}': f'=2*3*A{i}*{other}*1'})
+        # an error next to a blank under the ordering comparisons (ZZ1, ZZ2 are cells the workbook does not hold)
+        cells.update({f'AA{i}': f'=A{i}>ZZ1', f'AB{i}': f'=ZZ1<=A{i}', f'AC{i}': f'={code}<ZZ2', f'AD{i}': f'=ZZ2>={code}', f'AE{i}': f'=A{i}=ZZ1'})
         err = ('error', code)
         want.update({f'{c}{i}': err for c in 'NOPQRST'})
+        want.update({f'A{c}{i}': err for c in 'ABCD'})
         want.update({f'A{i}': err, f'B{i}': err, f'C{i}': err, f'D{i}': err, f'E{i}': ('Boolean', True), f'F{i}': err,
                      f'G{i}': ('Number', 2 if code == '#N/A' else 1), f'H{i}': err, f'I{i}': ('Boolean', code == '#N/A'), f'J{i}': ('error', other),
                      f'K{i}': ('Text', 'caught'), f'L{i}': err, f'M{i}': err})
@@ -442,6 +445,13 @@ def rule_8(ctx):
         i = a[1:]
         cells.update({a: f, f'V{i}': f'={a}+1', f'W{i}': f'={a}>0', f'X{i}': f'=ISNUMBER({a})', f'Y{i}': f'=ISERROR({a})'})
         want.update({a: ('Number', v), f'V{i}': ('Number', v + 1), f'W{i}': ('Boolean', v > 0), f'X{i}': ('Boolean', True), f'Y{i}': ('Boolean', False)})
+    # the inspectors report the type of what a CELL holds: booleans, numbers equal to them, texts, blanks
+    cells.update({'BA1': True, 'BA2': False, 'BA3': 1, 'BA4': 0.0, 'BA5': 'TRUE', 'BB1': '=ISNUMBER(BA1)', 'BB2': '=ISTEXT(BA2)', 'BB3': '=BA1', 'BB4': '=ISBLANK(BA2)',
+                  'BB5': '=ISNUMBER(BA2)', 'BB6': '=ISNUMBER(BA3)', 'BB7': '=ISNUMBER(BA4)', 'BB8': '=ISTEXT(BA5)', 'BB9': '=BA2', 'BB10': '=ISBLANK(BA9)', 'BB11': '=BA3',
+                  'BB12': '=ISNUMBER(BA5)', 'BB13': '=ISERROR(BA1)'})
+    want.update({'BB1': ('Boolean', False), 'BB2': ('Boolean', False), 'BB3': ('Boolean', True), 'BB4': ('Boolean', False), 'BB5': ('Boolean', False),
+                 'BB6': ('Boolean', True), 'BB7': ('Boolean', True), 'BB8': ('Boolean', True), 'BB9': ('Boolean', False), 'BB10': ('Boolean', True), 'BB11': ('Number', 1),
+                 'BB12': ('Boolean', False), 'BB13': ('Boolean', False)})
     wb = W.Workbook(ctx, cells)
     n = 0
     for a, w in want.items():
@@ -455,7 +465,7 @@ def rule_8(ctx):
                    f'{a} = {cells[a]} evaluates to {got!r}, expected {w!r}: an Excel error is a value - written as a literal, stored in a cell or '
                    'produced by a formula it propagates (leftmost first) through operators, functions and dependent cells, and only the inspectors '
                    'and IFERROR look at it')
-    ctx.floor(170, 'error cells')
+    ctx.floor(210, 'error cells')
 
 
 RULES = [
